@@ -157,6 +157,12 @@ class DocBuilder:
     def ref(self, c):
         """reference argument: a record object, or a name in any representation"""
         elems = self.elems[c]
+        if self.g.chance(0.15):
+            # a record object of *another* scope (the enclosing document, a sibling bundle): it stands for its identifier, which
+            # is then a name of the asserting scope like any other (resolved there, renamed there when its prefix is bound differently)
+            pool = [hk for c2 in self.elems if c2 != c for hk in self.elems[c2]]
+            if pool:
+                return self.w.recs[self.g.choice(pool)[0]]
         if elems and self.g.chance(0.5):
             h, _k = self.g.choice(elems)
             return self.w.recs[h]
